@@ -137,6 +137,9 @@ def programs(tier="quick"):
     out.append(("attributes|unclocked-process-temporary", entity([
         "@std.sequential", "def comb():", "    t = Temporary[Unsigned[4]](self.a & self.us, attributes=[keep('x')])", "    self.o <<= t + 1"])))
     # --- texts that end up inside comments and string literals
+    # entities without ports: no port clause in the declaration, the instantiation statement is still terminated
+    out.append(("hierarchy|instance-of-entity-without-ports", entity(["class NoPorts(cohdl.Entity):", "    def architecture(self):", "        s = Signal[Bit](False, name='s')", "        @std.concurrent", "        def logic():", "            s.next = ~s",
+                                                                    "NoPorts()", "@std.concurrent", "def l():", "    self.o <<= self.a"])))
     out.append(("text|comment-with-line-breaks", entity(["@std.sequential(std.Clock(self.clk))", "def p():", "    cohdl.comment('first line\\nsecond line', 'third')", "    self.o <<= self.a"])))
     out.append(("text|assert-message-with-quotes", entity(["@std.sequential(std.Clock(self.clk))", "def p():", "    assert self.b, 'say \"hi\" twice'", "    self.o <<= self.a"])))
     out.append(("text|assert-message-with-line-break", entity(["@std.sequential(std.Clock(self.clk))", "def p():", "    assert self.b, 'one\\ntwo'", "    self.o <<= self.a"])))
